@@ -208,7 +208,9 @@ def r2_duality(ctx, outs, key):
     rule = 'C08.R2-branch-duality'
     for flag, name, op, init, own, other, childflag in ((1, 'maximising', 'std::cmp::max', I16MIN, 5, 6, False),
                                                        (0, 'minimising', 'std::cmp::min', I16MAX, 6, 5, True)):
-        info = loop_info(minimax_outcomes(ctx, flag=bool(flag)), None)
+        outs_f = minimax_outcomes(ctx, flag=bool(flag))
+        keys_f = {e[2][1] for o_ in outs_f for e in o_.events if e[0] == 'call' and e[1] == CHECK}      # the entry key as it reads in this specialisation
+        info = loop_info(outs_f, None)
         if not info['rec']:
             ctx.anchor_missing(rule, MINIMAX, '%s loop not found' % name)
             continue
@@ -269,7 +271,7 @@ def r2_duality(ctx, outs, key):
         okr = bool(info['ret'])
         for kind, val, stored, skey in info['ret']:
             inner = dict(val[4])['0'] if val[0] == 'agg' and val[3] == 'Ok' else None
-            if stored is not None and (stored != inner or skey not in (key, subst_term(key, {('p', 7): C(bool(flag))}))):
+            if stored is not None and (stored != inner or (skey != key and skey not in keys_f)):
                 okr = False
             if inner is None:
                 okr = False
@@ -546,6 +548,13 @@ def r6_all_candidates(ctx, outs):
         if h[2] in seen_heads:
             continue
         its = [v for v in h[3].values() if isinstance(v, tuple) and any(s[0] == 'call' and s[1].rsplit('::', 1)[-1] in ('iter', 'into_iter') for s in subterms(v))]
+        if isinstance(h[2], tuple):
+            # the loop is an iterator adapter (`candidates.iter().any(|m| ..)`): its source and stages are recorded by the engine
+            ad = [e for e in o.events if e[0] == 'adapter' and e[2] == h[2]]
+            if ad and set(ad[0][4]) <= {'cloned', 'copied', 'enumerate', 'rev', 'by_ref'}:
+                its = [ad[0][3]]
+            else:
+                its = []
         if len(its) != 1:
             seen_heads[h[2]] = (False, 'loop iterator not recognised')
             continue
